@@ -1258,6 +1258,17 @@ func (rr *repRun) c11or01() string {
 	return "C11"
 }
 
+// c06or11: a retained user-created snapshot whose content changed is C06's clause; in a C11 run in
+// which a deletion has already been carried out it is reported as C11 ("deleting a snapshot never
+// changes ... the content of any other retained user-created snapshot" - also when the damage the
+// deletion did to the replica's bookkeeping only shows at a later write).
+func (rr *repRun) c06or11() string {
+	if rr.s.Prop == "C11" && rr.res.Stats["snapshot_removed"] > 0 {
+		return "C11"
+	}
+	return "C06"
+}
+
 func (rr *repRun) compareLive(prop, clause string) {
 	if !rr.m.open || rr.stopped() {
 		return
@@ -1411,7 +1422,7 @@ func (rr *repRun) removeSnapshot(target, kind string) {
 		// the background cleaner merged into a retained user-created snapshot (only reachable in
 		// C06 runs, see cleaner()): "deletion of other snapshots leaves every retained user-created
 		// snapshot byte-identical" - judge its content against the image recorded when it was taken
-		rr.checkSnapshots("C06", "user-snapshot-changed", "", "")
+		rr.checkSnapshots(rr.c06or11(), "user-snapshot-changed", "", "")
 		if rr.stopped() {
 			return
 		}
@@ -1662,7 +1673,7 @@ func (rr *repRun) afterStep(op Op) {
 	}
 	// C06: retained user snapshots immutable
 	if rr.s.Prop == "C06" || rr.s.Prop == "C11" || rr.step%3 == 2 {
-		rr.checkSnapshots("C06", "user-snapshot-changed", "", "")
+		rr.checkSnapshots(rr.c06or11(), "user-snapshot-changed", "", "")
 	}
 	// C16: size
 	if vm.Size != m.size {
@@ -1675,7 +1686,7 @@ func (rr *repRun) finalChecks() {
 	// let the puncher catch up completely, then everything must still hold
 	rr.drainPuncher()
 	rr.compareLive("C01", "read-mismatch")
-	rr.checkSnapshots("C06", "user-snapshot-changed", "", "")
+	rr.checkSnapshots(rr.c06or11(), "user-snapshot-changed", "", "")
 	if rr.stopped() {
 		return
 	}
@@ -1718,7 +1729,7 @@ func (rr *repRun) finalChecks() {
 				return
 			}
 		}
-		rr.checkSnapshots("C06", "user-snapshot-changed", "", "")
+		rr.checkSnapshots(rr.c06or11(), "user-snapshot-changed", "", "")
 	}
 }
 
